@@ -5,7 +5,7 @@
 The `protect` / `authenticate` / `format` methods of the vendor classes interleave tag commands (`self.read`,
 `self.write`, `read_without_mac`, ...) with byte arithmetic; the arithmetic is cut out by statement range or by
 sub-expression.  Not translated: the commands themselves, the triple DES calls, `os.urandom`."""
-from translate_fn import Spec, INT, BOOL, BYTES
+from translate_fn import Spec, INT, BOOL, BYTES, OPT
 
 GROUP = "Vendor"
 ORDER = 61
@@ -87,6 +87,26 @@ SPECS = [
     Spec(GROUP, "topaz512_wipe2", BCM, "Topaz512._format", [("wipe", INT)], expr="bytearray([wipe & 0xFF]) * 384"),
     Spec(GROUP, "topaz_hrom", BCM, "activate", [], binds=[("target.rid_res", "rid_res", BYTES)], stmts=[0], result=["hrom"],
          note="cut: the header ROM octets that select the class"),
+    # ---- functions that needed slice assignment / step -1 slices
+    Spec(GROUP, "ntag_protect_cfg", NXP, "NTAG21x._protect_with_password",
+         [("cfg", BYTES), ("key", BYTES), ("read_protect", BOOL), ("protect_from", INT)], stmts=[4, 5, 6], result=["cfg"],
+         note="cut: PWD/PACK, AUTH0 and PROT written into the configuration pages read from the tag"),
+    Spec(GROUP, "ulc_key_split", NXP, "MifareUltralightC._protect_with_password", [("key", BYTES)], stmts=[3], result=["key1", "key2"],
+         note="cut: the key halves as the tag stores them (each reversed)"),
+    Spec(GROUP, "lite_rev_halves", SONY, "FelicaLite._protect", [("key", BYTES)], expr="key[7::-1] + key[15:7:-1]",
+         note="cut: card key block (CK1 | CK2, each half reversed)"),
+    Spec(GROUP, "lite_chal", SONY, "FelicaLite._authenticate", [("rc", BYTES)], expr="rc[7::-1] + rc[15:7:-1]",
+         note="cut: random challenge block (RC1 | RC2, each half reversed)"),
+    Spec(GROUP, "lites_key_block", SONY, "FelicaLiteS._protect", [("key", BYTES)], expr="key[7::-1] + key[15:7:-1]"),
+    Spec(GROUP, "lites_ckv_block", SONY, "FelicaLiteS._protect", [("ckv", INT)], expr='pack("<H", ckv) + b"\\0" * 14',
+         note="cut: card key version block"),
+    Spec(GROUP, "lite_format_attr", SONY, "FelicaLite._format", [("version", INT), ("nmaxb", INT)], stmts=[8, 9, 10],
+         result=["attribute_data"], note="cut: the attribute block written by `format()` (Nbr 4, Nbw 1, RWFlag 1)"),
+    Spec(GROUP, "topaz_format", BCM, "Topaz._format", [("tag_memory", BYTES), ("wipe", OPT(INT))], stmts=[1, 3], result=["tag_memory"],
+         note="cut: capability container + empty NDEF TLV and the optional wipe on the cached image (a bytearray); "
+              "the `version` branch (statement 2) and `synchronize()` are not translated"),
+    Spec(GROUP, "topaz512_format", BCM, "Topaz512._format", [("tag_memory", BYTES), ("wipe", OPT(INT))], stmts=[1, 2, 4],
+         result=["tag_memory"], note="cut: as topaz_format, for the Topaz-512 layout"),
 ]
 P = "NfcVerif.FnBridge.Vendor."
 BRIDGE = {
@@ -99,11 +119,14 @@ BRIDGE = {
         "ulc_protect_key_bridge", "ulc_auth_key_bridge", "gen_ulc_keys_agree", "ulc_auth0_bridge",
         "gen_ulc_auth0_range", "ulc_auth1_bridge", "lite_mac_key_bridge", "lite_auth_key_bridge",
         "lite_protect_key_bridge", "gen_lite_keys_agree", "lite_mc_mask_bridge", "lite_mc_mask_beyond",
-        "lites_mc_mask_bridge", "lites_mc_mask_wr_bridge", "gen_mask_bits", "lites_ckv_bridge", "lite_format_nmaxb_bridge",
-        "gen_lite_format_nmaxb_sound", "lite_format_mc0_bridge", "lite_format_version_bridge", "lites_flip_bridge",
-        "lites_mac_data_bridge", "lites_rw_bits_bridge", "lite_nbr_bridge", "topaz_wipe_bridge",
-        "topaz512_wipe1_bridge", "topaz512_wipe2_bridge", "gen_formatTopaz", "topaz_version_bridge",
-        "topaz_hrom_bridge", "topaz_wipe_gen")],
+        "lites_mc_mask_bridge", "lites_mc_mask_wr_bridge", "gen_mask_bits", "lites_ckv_bridge",
+        "lite_format_nmaxb_bridge", "gen_lite_format_nmaxb_sound", "lite_format_mc0_bridge",
+        "lite_format_version_bridge", "lites_flip_bridge", "lites_mac_data_bridge", "lites_rw_bits_bridge",
+        "lite_nbr_bridge", "topaz_wipe_bridge", "topaz512_wipe1_bridge", "topaz512_wipe2_bridge", "gen_formatTopaz",
+        "topaz_version_bridge", "topaz_hrom_bridge", "lite_rev_halves_bridge", "lite_chal_bridge",
+        "lites_key_block_bridge", "ulc_key_split_bridge", "gen_key_block_words", "lites_ckv_block_bridge",
+        "ntag_protect_cfg_bridge", "gen_ntag_protect", "lite_format_attr_bridge", "topaz_format_bridge",
+        "topaz512_format_bridge")],
     "properties": ["C01", "C03", "C20"],
 }
 SMALL_INT = ("lite_mc_mask", "lites_mc_mask", "lites_mc_mask_wr")      # 2**protect_from is materialised
@@ -165,6 +188,20 @@ def inputs(rng, sp):
         out += [([], [v]) for v in (0, 1, 2, 3, 4, 15, 255)]
     if n in ("topaz_wipe", "topaz512_wipe1", "topaz512_wipe2"):
         out += [([v], []) for v in (-256, -1, 0, 1, 0x5A, 255, 256, 257, 0x1FF, 65535)]
+    if n in ("lite_rev_halves", "lite_chal", "lites_key_block", "ulc_key_split"):
+        out += [([_b(rng, k)], []) for k in (0, 1, 7, 8, 9, 15, 16, 16, 16, 17, 24)]
+    if n == "lites_ckv_block":
+        out += [([v], []) for v in (-1, 0, 1, 255, 256, 65534, 65535, 65536)]
+    if n == "ntag_protect_cfg":
+        for _ in range(100):
+            out.append(([_b(rng, rng.choice([16, 16, 16, 16, 8, 4, 0])), _b(rng, rng.choice([6, 6, 6, 5, 7, 0])), rng.random() < 0.5,
+                         rng.choice([-1, 0, 3, 4, 41, 255, 256])], []))
+    if n == "lite_format_attr":
+        out += [([v, m], []) for v in (0, 0x10, 0x11, 255, 256) for m in (0, 1, 13, 255, 256, 65535, 65536)]
+    if n in ("topaz_format", "topaz512_format"):
+        for _ in range(40):
+            size = rng.choice([120, 128, 512, 512, 64, 16, 0])
+            out.append(([_b(rng, size), rng.choice([None, 0, 0x5A, 255, 256, -1])], []))
     if n == "topaz_hrom":
         out += [([], [bytes([0x11, 0x48, 1, 2, 3, 4])]), ([], [bytes([0x12, 0x4C, 1, 2, 3, 4])]), ([], [b"\x11"]), ([], [b""])]
     return out
@@ -198,5 +235,13 @@ MUTATIONS = [
     ("lites_flip", "flip halves", "sk[8:16] + sk[0:8]", "sk[0:8] + sk[8:16]"),
     ("lites_mac_data", "MAC block number", 'b"\\x00\\x91\\x00"', 'b"\\x00\\x90\\x00"'),
     ("topaz_wipe", "wipe length", "* 90", "* 91"),
+    ("ntag_protect_cfg", "PWD/PACK position", "cfg[8:14] = key", "cfg[8:13] = key"),
+    ("lite_rev_halves", "second half not reversed", "key[7::-1] + key[15:7:-1], 0x87)", "key[7::-1] + key[8:16], 0x87)"),
+    ("lite_chal", "challenge halves swapped", "rc[7::-1] + rc[15:7:-1]", "rc[15:7:-1] + rc[7::-1]"),
+    ("ulc_key_split", "first key half", "key[7::-1], key[15:7:-1]", "key[8::-1], key[15:7:-1]"),
+    ("lites_ckv_block", "padding of the version block", 'b"\\0" * 14, 0x86)', 'b"\\0" * 13, 0x86)'),
+    ("lite_format_attr", "Nbw of the Lite", "version, 4, 1, nmaxb, 1)", "version, 4, 2, nmaxb, 1)"),
+    ("topaz_format", "capability container size byte", 'b"\\xE1\\x10\\x0E\\x00\\x03\\x00"', 'b"\\xE1\\x10\\x0F\\x00\\x03\\x00"'),
+    ("topaz512_format", "wipe start of the dynamic memory", "tag_memory[128:512] =", "tag_memory[120:512] ="),
     ("topaz_hrom", "NEUTRAL slice start written explicitly", "target.rid_res[0:2]", "target.rid_res[:2]"),
 ]
